@@ -15,7 +15,7 @@ func init() {
 	fw.Register(&fw.Check{
 		ID:    "C09",
 		Level: "fault_enumeration",
-		Rule: "documents = ce.MarshalTo{CBE,CTE}Document of generated container values (slices, maps, structs of supported kinds, depth<=3) that unmarshal completely without error; " +
+		Rule: "documents = ce.MarshalTo{CBE,CTE}Document of generated container values (slices, maps, structs of supported kinds, depth<=3) that unmarshal completely without error; in half of the cases the outermost struct types are registered as record types, so structs travel as records; " +
 			"for each document EVERY cut k in [1, len-1] is enumerated and doc[:k] is unmarshaled with a nil template and with the value's own type as template. Oracle: err != nil at every cut; " +
 			"the returned partial value is a prefix of the full result (list: no longer than full, all but the last element equal, last element recursively a prefix; map/struct: every key present exists in full " +
 			"with a prefix value; scalar: equal or zero; string/array: equal, empty or a byte prefix); for top-level lists the number of elements lying wholly before the cut is a lower bound on the partial list's length; for top-level structs (typed template) a field that was delivered equal to its full value at one cut must be delivered unchanged at every later cut. " +
@@ -235,6 +235,25 @@ func runC09(c *fw.Ctx, idx int) {
 	}
 	if v.Kind() == reflect.Slice && isSizedNumericKind(t.Elem().Kind()) {
 		// typed arrays are one object; keep them (cuts inside the array) but no lower bound
+	}
+	if idx%4 >= 2 {
+		// struct types written as records (a record type definition up front, then positional values)
+		structs := map[reflect.Type]bool{}
+		c05CollectStructs(t, structs)
+		var names []string
+		byName := map[string]reflect.Type{}
+		for st := range structs {
+			names = append(names, st.String())
+			byName[st.String()] = st
+		}
+		sortStrings(names)
+		for i, nme := range names {
+			cfg.Iterator.RecordTypes[byName[nme]] = fmt.Sprintf("rec%d", i)
+		}
+		if len(names) > 0 {
+			c.Inc("documents_with_record_types")
+			codec += "+records"
+		}
 	}
 	val := v.Interface()
 	c.Note("C09 %s type %v value %s", codec, t, short(gen.Render(val), 800))
